@@ -146,6 +146,7 @@ func runAck(w *World) {
 	fnodes := make([]*Node, body.NFollowers)
 	done := false
 	demotedEv := uint64(0)
+	demoteDoneEv := uint64(0)
 	// which nodes have the record of which ack-lock in their log, and since when
 	logged := map[int]map[ackKey]uint64{}
 	diskFail := map[int]bool{} // node -> log writes fail now
@@ -254,12 +255,19 @@ func runAck(w *World) {
 		isAck := r.Op.Cmd == protocol.COMMAND_LOCK && r.Op.TFlag&tfAck != 0
 		k := ackKey{keyBytes(r.Op.Key), lidBytes(r.Op.Lid)}
 		if demotedEv > 0 && rep.Ev > demotedEv && r.Op.Cmd == protocol.COMMAND_LOCK && rep.Result == protocol.RESULT_SUCCED {
-			// the node has given up the lead: nothing may be granted by it any more, and an ack-lock
-			// that was pending at that moment must fail
-			w.violate("C10", "non_leader_granted", "request %s was answered SUCCED by node n1 after it had stepped down as leader (state %d)", r, leader.sl.state)
-			if isAck {
-				w.violate("C11", "ack_succeeded_after_leadership_lost", "ack-lock %s was answered SUCCED after the leader had stepped down; a pending ack-lock must be failed when leadership is lost", r)
-				return
+			// the node has given up the lead: a request that reaches it afterwards is not granted, a
+			// queued request is not served, and an ack-lock that is still pending once the step-down
+			// has finished must have been failed by it. An ack-lock that was in flight when the
+			// step-down began may still complete while it is in progress (its record is in every log).
+			inFlight := r.InvEv < demotedEv && isAck && (demoteDoneEv == 0 || rep.Ev < demoteDoneEv)
+			if !inFlight {
+				w.violate("C10", "non_leader_granted", "request %s was answered SUCCED by node n1 after it had stepped down as leader (state %d)", r, leader.sl.state)
+				if isAck {
+					w.violate("C11", "ack_succeeded_after_leadership_lost", "ack-lock %s was answered SUCCED after the leader had stepped down; a pending ack-lock must be failed when leadership is lost", r)
+					return
+				}
+			} else {
+				w.probe("ack_locks_completed_during_step_down")
 			}
 		}
 		switch {
@@ -307,7 +315,16 @@ func runAck(w *World) {
 			}
 			if r.Op.Data != nil && r.Op.Data.Op == "set" && rep.Result != protocol.RESULT_LOCKED_ERROR && rep.Result != protocol.RESULT_LOCK_ACK_WAITING {
 				if has, v := leaderValue(&r.Op); has && v == string(r.Op.Data.Val) {
-					w.violate("C11", "refused_ack_lock_value_kept", "ack-lock %s was answered with result %d but the value it wrote (%q) is still attached to key %d", r, rep.Result, v, r.Op.Key)
+					cls := "refused_ack_lock_value_kept"
+					for _, q := range h.order {
+						// another ack-lock with a value operation was pending on the key at the same time:
+						// the two undo records are applied out of order (finding F70)
+						if q != r && q.Op.Cmd == protocol.COMMAND_LOCK && q.Op.TFlag&tfAck != 0 && q.Op.Data != nil && q.Op.Key == r.Op.Key && q.Op.Db == r.Op.Db &&
+							q.InvEv < rep.Ev && (len(q.Replies) == 0 || q.Replies[0].Ev > r.InvEv) {
+							cls = "refused_ack_lock_value_kept_overlapping"
+						}
+					}
+					w.violate("C11", cls, "ack-lock %s was answered with result %d but the value it wrote (%q) is still attached to key %d", r, rep.Result, v, r.Op.Key)
 				}
 			}
 		}
@@ -411,6 +428,7 @@ func runAck(w *World) {
 						sleep(time.Millisecond)
 						_ = sl.replicationManager.transparencyManager.ChangeLeader("")
 						_ = sl.replicationManager.SwitchToFollower("")
+						demoteDoneEv = h.nextEv()
 						fin = true
 					})
 					for i := 0; i < 400 && !fin; i++ {
